@@ -649,7 +649,7 @@ Rec ==
       err |-> \E i \in Inst : err'[i] /\ ~err[i],
       iso |-> kind = "Deliver" /\ inst[a[3]][a[2]] = "ISOLATED",
       snapchg |-> kind = "Deliver" /\ LocalVarsP(a[3]) # LocalVars(a[3]),
-      user |-> FALSE]
+      user |-> FALSE, nonadm |-> FALSE, procchg |-> FALSE]
 
 QueuesEmpty(qq, al) == \A i, j \in Inst : al[i] => qq[i][j] = <<>>
 Disturbing == act'[1] \in {"Crash", "Boot", "Cut", "Heal", "User", "EndSync", "Conflict", "Release"}
@@ -677,7 +677,7 @@ LabelsC01 == {"C01.ElectionRule", "C01.MasterOnlyAuto"}
 LabelsC02 == {"C02.OnGraph", "C02.NeedsMaster", "C02.SlaveAfterMaster"}
 LabelsC07 == {"C07.InstanceGraph", "C07.LocalIsolated", "C07.Accuracy", "C07.Fence", "C07.Completeness",
               "C07.ViewConsistent"}
-LabelsC13 == {"C13.Airtight", "C13.NoTraffic", "C13.Reciprocal"}
+LabelsC13 == {"C13.Airtight", "C13.NoTraffic", "C13.Reciprocal", "C13.OnlyAdmitted"}
 LabelsC16 == {"C16.NoInternalError"}
 StepsC01 == [][P!StepFailures(g, Rec) \cap LabelsC01 = {}]_vars
 StepsC02 == [][P!StepFailures(g, Rec) \cap LabelsC02 = {}]_vars
